@@ -40,7 +40,8 @@ def Md : ModSrc := { src "mdd" "" with imports := [(bs "maa", []), (bs "mcc", []
 /-- a module that does not compile (unknown typedef) -/
 def Mz : ModSrc := { src "mzz" "" with imports := [(bs "maa", [])], faults := [(.compile, 7)] }
 
-def ctx0 (repo : List ModSrc) (explicit : Bool := false) (cfg : Cfg := {}) : Ctx := { cfg := cfg, repo := repo, explicit := explicit }
+def ctx0 (repo : List ModSrc) (explicit : Bool := false) (cfg : Cfg := {}) (cfg2 : Cfg2 := {}) : Ctx :=
+  { cfg := cfg, cfg2 := cfg2, repo := repo, explicit := explicit }
 
 /-- every value of `Cfg` -/
 def allCfgs : List Cfg :=
